@@ -1,6 +1,7 @@
 package main
 
 import (
+	"sync"
 	"encoding/json"
 	"flag"
 	"fmt"
@@ -341,8 +342,30 @@ func runCheck(args []string) int {
 		path := writeReplayFile(*prop, m, "function under contract missing from the tree", "")
 		violLines = append(violLines, fmt.Sprintf("VIOLATION property=%s replay=%s function-under-contract-missing=%s no-failing-input-found", *prop, path, m))
 	}
+	// witness replay: the models of (at most four) failed obligations are turned into calls of the real code
+	witnesses := map[*Obligation]*replayResult{}
+	{
+		var wg sync.WaitGroup
+		var mu sync.Mutex
+		n := 0
+		for _, o := range failed {
+			if o.Status != "sat" || n >= 8 || os.Getenv("GOVC_NO_WITNESS") != "" {
+				continue
+			}
+			n++
+			wg.Add(1)
+			go func(o *Obligation) {
+				defer wg.Done()
+				r := V.witnessReplay(o, workDir, timeout)
+				mu.Lock()
+				witnesses[o] = r
+				mu.Unlock()
+			}(o)
+		}
+		wg.Wait()
+	}
 	for _, o := range failed {
-		violLines = append(violLines, reportViolation(*prop, o, workDir))
+		violLines = append(violLines, reportViolation(*prop, o, workDir, witnesses[o]))
 	}
 	if *writeBaseline {
 		nb := Baseline{Property: *prop, Unclaimed: map[string]string{}}
@@ -545,7 +568,7 @@ func writeReplayFile(prop, obl, what, model string) string {
 	return path
 }
 
-func reportViolation(prop string, o *Obligation, workDir string) string {
+func reportViolation(prop string, o *Obligation, workDir string, rp *replayResult) string {
 	what := fmt.Sprintf("obligation failed: %s\nkind: %s\nat: %s\nmeaning: %s\nsolver: %s answered %s in %d ms", o.Name, o.Kind, o.Pos, o.Desc, o.Solver, o.Status, o.Millis)
 	suffix := " no-failing-input-found"
 	model := o.Model
@@ -553,7 +576,7 @@ func reportViolation(prop string, o *Obligation, workDir string) string {
 		what += "\nundecided: no solver proved the obligation within the budget (it was discharged on the unchanged tree)"
 	}
 	// try a concrete replay
-	if rp := tryReplay(prop, o); rp != nil {
+	if rp != nil {
 		what += "\n\n" + rp.text
 		if rp.confirmed {
 			suffix = ""
